@@ -412,6 +412,20 @@ def canon(fn: ast.FunctionDef, expr: ast.AST | None, keep: Iterable[str] = ()) -
     return unparse(inline(expr, env))
 
 
+def canonical_subscripts(fn: ast.FunctionDef) -> list[str]:
+    """text of every subscript read in the function with single-assignment locals (and plain copies) inlined, so that
+    `m = T[a]; e = m[b]` reads as `T[a][b]` and `k = self.x; T[k]` as `T[self.x]`"""
+    env = last_assignments(fn)
+    out = []
+    for n in walk_no_nested(fn):
+        if isinstance(n, ast.Subscript) and isinstance(n.ctx, ast.Load):
+            e: ast.AST = n
+            for _ in range(4):
+                e = inline(e, env)
+            out.append(unparse(e))
+    return out
+
+
 def alias_root(fn: ast.FunctionDef, name: str, depth: int = 6) -> str:
     """follow `x = y` copies back to the first name (parameters included); stops at anything that is not a plain copy."""
     cur = name
